@@ -16,7 +16,7 @@ import lib
 from lib import clist, cstr, cbool
 
 warnings.filterwarnings("ignore")
-N = {"quick": 260, "thorough": 6000}
+N = {"quick": 220, "thorough": 3000}
 DA_DIR = os.path.join(os.path.realpath(lib.REPO), "data_algebra") + os.sep
 
 STEP_KIND = {"_table_step": "KTable", "_extend_step": "KExtend", "_project_step": "KProject", "_select_rows_step": "KSelectRows",
@@ -112,7 +112,8 @@ def close_cell(x, y):
 def results_differ(r1, r2, ordered=True):
     """a second evaluation must give the same result: same columns, dtypes, index, same cells (floats by the 1e-8 relative rule);
     rows as a multiset when `ordered` is False (Polars group_by / join output order is not defined)"""
-    a, b = snap(r1), snap(r2)
+    a = r1 if isinstance(r1, dict) else snap(r1)
+    b = r2 if isinstance(r2, dict) else snap(r2)
     for k in ("shape", "columns", "dtypes", "index"):
         if a.get(k) != b.get(k):
             return f"{k}: {a.get(k)!r} vs {b.get(k)!r}"
@@ -251,6 +252,7 @@ class Tracer:
                 finally:
                     self.stack.pop()
                 rec["res"] = res
+                rec["nrows"], rec["cols"], rec["range"] = int(res.shape[0]), [str(c) for c in res.columns], is_range_index(res)   # at return time
                 self.keep.append(res)          # keep ids unambiguous
                 return res
             new[name] = wrapped
@@ -393,7 +395,7 @@ def c_op(rec):
     """the Coq operator tree of an evaluated node, annotated with the row counts observed in this run"""
     import data_algebra.expr_rep as er
     op, ch = rec["op"], rec["children"]
-    nr = rec["res"].shape[0]
+    nr = rec["nrows"]
     k = op.node_name
     if k == "TableDescription":
         return "(Table %s %s)" % (cstr(op.table_name), cstrs(op.column_names))
@@ -435,12 +437,12 @@ def c_op(rec):
     if k == "ConvertRecordsNode":
         rm = op.record_map
         hi, ho = rm.blocks_in is not None, rm.blocks_out is not None
-        src_rows = ch[0]["res"].shape[0]
+        src_rows = ch[0]["nrows"]
         if hi and ho:
             mid, nmid = list(rm.blocks_in.row_columns), (1 if src_rows > 0 else 0)
         else:
-            mid, nmid = list(rec["res"].columns), nr
-        return "(ConvertRecords %s %s %s %s %s %d %d)" % (src, cbool(hi), cbool(ho), cstrs(mid), cstrs(rec["res"].columns), nmid, nr)
+            mid, nmid = list(rec["cols"]), nr
+        return "(ConvertRecords %s %s %s %s %s %d %d)" % (src, cbool(hi), cbool(ho), cstrs(mid), cstrs(rec["cols"]), nmid, nr)
     raise ValueError(k)
 
 
@@ -456,7 +458,7 @@ def c_nodes(rec, callers, acc):
         ret = "RSrc1"
     else:
         ret = "RNew"
-    acc.append("(%s, %s, %d, %s, %s)" % (NODE_KIND[rec["op"].node_name], ret, res.shape[0], cstrs(res.columns), cbool(is_range_index(res))))
+    acc.append("(%s, %s, %d, %s, %s)" % (NODE_KIND[rec["op"].node_name], ret, rec["nrows"], cstrs(rec["cols"]), cbool(rec["range"])))
     return acc
 
 
@@ -499,16 +501,9 @@ def polars_case(ops, pframes, script_ops_tree):
 
 def c_op_static(op):
     """operator tree without observed row counts (Polars cases: only the write pattern is compared)"""
-    rec = {"op": op, "children": [], "res": _NoShape()}
-
     def build(o):
-        return {"op": o, "children": [build(s) for s in o.sources], "res": _NoShape()}
+        return {"op": o, "children": [build(s) for s in o.sources], "res": None, "nrows": 1, "cols": [], "range": True}
     return c_op(build(op))
-
-
-class _NoShape:
-    shape = (1, 0)
-    columns = []
 
 
 # ------------------------------------------------------------------------------------------------ building pipelines
@@ -559,6 +554,8 @@ def gen_case(rng, i):
         s, _, _ = pipes.Gen(rng, [t1]).pipeline(rng.randint(1, 4))
     else:
         s, _, _ = g.pipeline(rng.randint(2, 6))
+    if rng.random() < 0.04:                  # a random function: inputs must still be untouched, repeatability is not claimed
+        s = {"op": "extend", "src": s, "ops": {"rnd_u": "_uniform()"}}
     decor = {t["name"]: gen_decor(rng, t) for t in tables}
     if same:
         decor["d2"] = decor["d1"]
@@ -597,7 +594,7 @@ def check_unchanged(before, frames, entry, raised):
 def entries_pandas(s, tables, decor, same, stats=None):
     """run every Pandas entry point on fresh caller frames; raises Violation on the first failure of the property"""
     import pipes, pandas as pd
-    from data_algebra.data_ops import data as da_data, ex as da_ex
+    from data_algebra.data_ops import data as da_data, ex as da_ex, descr as da_descr
     from data_algebra.arrow import DataOpArrow
     tmap = {t["name"]: t for t in tables}
     ops = pipes.build(s, tmap)
@@ -619,26 +616,19 @@ def entries_pandas(s, tables, decor, same, stats=None):
         if not raised:
             if stats is not None:
                 stats(f"{entry}:ok")
-            if isinstance(r, pd.DataFrame):
-                for n, f in frames.items():
-                    if r is f:
-                        raise Violation(f"{entry} returned the caller's own frame object '{n}'", {"oracle": "alias", "entry": entry, "raised": False}, n)
             results[entry] = r
         return r
     # eval with a data_map holding every frame (used or not), extra unused columns included
     fr = frames_for(tables, decor, same)
     r1 = attempt("eval", fr, lambda: ops.eval(fr))
-    if r1 is not None:
-        before = {n: snap(f) for n, f in fr.items()}
-        r1snap = snap(r1)
+    if r1 is not None and not has_random(s):
+        r1snap = snap(r1)                      # taken BEFORE the second evaluation (the two results may share objects)
         r2 = attempt("eval_again", fr, lambda: ops.eval(fr))
-        if r2 is not None:
-            d = results_differ(r1, r2)
-            if d:
-                raise Violation("a second eval on the same inputs gives a different result: " + d, {"oracle": "repeat", "entry": "eval", "raised": False}, d)
-            d = snap_diff(r1snap, snap(r1))
-            if d:
-                raise Violation("the second eval changed the frame returned by the first: " + d, {"oracle": "repeat_alias", "entry": "eval", "raised": False}, d)
+        if r2 is None:
+            raise Violation("a second eval on the same inputs raised although the first succeeded", {"oracle": "repeat", "entry": "eval", "raised": True}, "")
+        d = results_differ(r1snap, r2)
+        if d:
+            raise Violation("a second eval on the same inputs gives a different result: " + d, {"oracle": "repeat", "entry": "eval", "raised": False}, d)
     fr = frames_for(tables, decor, same)
     attempt("eval_strict_false_subset", {n: fr[n] for n in used}, lambda: ops.eval({n: fr[n] for n in used}, strict=False))
     # ex(): tables captured in the pipeline (all rows kept)
@@ -650,6 +640,13 @@ def entries_pandas(s, tables, decor, same, stats=None):
     if ops_ex is not None:
         attempt("ex", fr, lambda: ops_ex.ex())
         attempt("ex_fn", fr, lambda: da_ex(ops_ex))
+    fr = frames_for(tables, decor, same, extras=False)
+    try:
+        ops_d = build(s, lambda n: da_descr(**{n: fr[n]}))      # keeps head(7) only: ex() refuses larger tables
+    except Exception:
+        ops_d = None
+    if ops_d is not None:
+        attempt("descr_ex", fr, lambda: ops_d.ex())
     if len(used) == 1:
         n = used[0]
         fr = frames_for(tables, decor, same)
@@ -667,7 +664,7 @@ def entries_polars(s, tables, same, stats=None):
     import pipes, polars as pl
     tmap = {t["name"]: t for t in tables}
     ops = pipes.build(s, tmap)
-    ordered = s["op"] == "order_rows"
+    ordered = False      # Polars group_by / join / sort-with-ties output order is not deterministic: rows compared as a multiset
     for lazy in (False, True):
         pf = {}
         for t in tables:
@@ -682,10 +679,11 @@ def entries_polars(s, tables, same, stats=None):
             if stats is not None:
                 stats(f"{entry}:raised:{type(e).__name__}")
         check_unchanged(before, pf, entry, raised)
-        if raised:
+        if raised or has_random(s):
             continue
         if stats is not None:
             stats(f"{entry}:ok")
+        r1 = snap(r1)
         try:
             r2 = ops.eval(pf)
         except Exception as e:
@@ -812,7 +810,10 @@ def run(chk):
     import pipes
     rng = chk.rng
     n = N[chk.tier]
+    import time
+    t0 = time.time()
     chk.prove([], extra_vo=["theories/Model/StoreCases.vo"])
+    t_prove = time.time() - t0
     chk.cov["trusted_base"] = ["Coq 8.16.1 kernel + vm_compute",
                                "hand model Model/Store.v: heap of frame objects, per `_*_step` of pandas_base.py / polars_model.py the objects created and the in-place writes "
                                "(transcribed by hand; tied by the instrumented correspondence run)",
@@ -847,6 +848,8 @@ def run(chk):
         chk.dist("index:" + decor["d1"]["index"])
         if same:
             chk.dist("same_frame_under_two_names")
+        if has_random(s):
+            chk.dist("random_function_pipeline")
         try:
             v = oracle(s, tables, decor, same, stats)
         except Exception as e:                      # builder rejected the script etc.
@@ -905,8 +908,9 @@ def run(chk):
         if d or any(w[2] for w in tr.writes):
             chk.impl_violation("convert_records pipeline modified the caller's frame: " + str(d), {"kind": "impl-violation", "pipeline": str(ops), "frame": fr["d"].to_dict(orient="list"),
                                                                                                   "index": [repr(x) for x in fr["d"].index], "detail": d}, {"oracle": "unchanged", "entry": "eval", "ops": ["convert_records"]})
+        res_snap = snap(res)
         r2 = ops.eval(fr)
-        dd = results_differ(res, r2)
+        dd = results_differ(res_snap, r2)
         if dd:
             chk.impl_violation("convert_records pipeline is not repeatable: " + dd, {"kind": "impl-violation", "pipeline": str(ops), "frame": fr["d"].to_dict(orient="list"), "detail": dd},
                                {"oracle": "repeat", "entry": "eval", "ops": ["convert_records"]})
@@ -914,12 +918,14 @@ def run(chk):
             nwrites[(w[0], w[1])] = nwrites.get((w[0], w[1]), 0) + 1
         terms.append(term)
         meta.append({"pipeline": str(ops), "frame": fr["d"].to_dict(orient="list"), "observed_writes": sorted(set(map(str, tr.writes)))})
+    t_run = time.time() - t0 - t_prove
+    chk.cov["timing_s"] = {"prove": round(t_prove, 1), "oracle_and_traces": round(t_run, 1)}
     chk.cov["oracle"] = {"what": "deep snapshot of caller frames before/after every entry point; second evaluation equal", "cases": len(cases)}
     chk.cov["observed_in_place_operations"] = {f"{k[0]}:{k[1]}": v for k, v in sorted(nwrites.items(), key=repr)}
     if os.path.exists(os.path.join(lib.COQ, "theories/Model/StoreCases.vo")):
         pre = ("From Coq Require Import List Bool Arith String.\nImport ListNotations.\nOpen Scope string_scope.\n"
                "From DA Require Import Base.Cases Model.Store Model.StoreCases.\nOpen Scope list_scope.\n")
-        failing, errors, nchecked = lib.run_case_files("C19", pre, terms, "check_cases", per_file=120)
+        failing, errors, nchecked = lib.run_case_files("C19", pre, terms, "check_cases", per_file=60 if chk.tier == "quick" else 300, timeout=1500)
         chk.cov["correspondence"] = {"what": "per node: step kind, returned object new/same-as-source/caller, rows, columns, default index; set of in-place operations per step kind "
                                              "(both directions); instrumented ops.eval vs Model/Store.v", "cases": len(terms), "checked_in_coq": nchecked,
                                      "disagreements": len(failing), "errors": errors[:2]}
